@@ -55,7 +55,9 @@ func like(condition, data any) (bool, error) {
 				return strings.HasPrefix(d, cn), nil
 
 			case len(startAndEnd) == 2:
-				return strings.HasPrefix(d, startAndEnd[0]) && strings.HasSuffix(d, startAndEnd[1]), nil
+				// the prefix and the suffix must not overlap
+				return len(d) >= len(startAndEnd[0])+len(startAndEnd[1]) &&
+					strings.HasPrefix(d, startAndEnd[0]) && strings.HasSuffix(d, startAndEnd[1]), nil
 
 			default:
 				return cn == d, nil
